@@ -233,7 +233,7 @@ def run_relaunch(case):
         if not line:
             return {"error": "second run produced nothing", "stderr": ch.stderr[-800:]}
         r2 = json.loads(line[-1][7:])
-        return {"end": {"steps": r1["steps"], "trains": r1["trains"], "info": fin[4] if len(fin) > 4 else None}, "second": r2}
+        return {"end": {"steps": r1["steps"], "trains": r1["trains"], "hidden": r1.get("hidden"), "info": fin[4] if len(fin) > 4 else None}, "second": r2}
     finally:
         shutil.rmtree(tmp, ignore_errors=True)
 
